@@ -943,13 +943,15 @@ func (h *NtfnsHandler) asyncImport(walletId string) (finish bool, err error) {
 					return err
 				}
 				if rec == nil {
-					logging.CPrint(logging.ERROR, "unexpected error, tx is not relevant",
+					// the index lists the transaction under a script hash of the wallet, but
+					// every such output is in a form the wallet does not read: skip it
+					logging.CPrint(logging.WARN, "tx is not relevant",
 						logging.LogFormat{
-							"tx":     rec.Hash.String(),
+							"tx":     msg.TxHash().String(),
 							"block":  blockMeta.Hash.String(),
 							"height": blockMeta.Height,
 						})
-					return fmt.Errorf("unexpected error: tx is not relevant")
+					continue
 				}
 				rec.TxLoc = txloc
 
